@@ -22,7 +22,7 @@ def functions(ns):
 def instantiations(tier, seed):
     rng = random.Random(seed * 503 + 29)
     out = []
-    skels = F.pl_family(tier, seed, n_quick=40, n_thorough=1500)
+    skels = F.pl_family(tier, seed, n_quick=200, n_thorough=1500)
     reps = 3 if tier == "quick" else 6
     for k, sk in enumerate(skels):
         names = F.ALT_NAMES[(k + seed) % len(F.ALT_NAMES)]
